@@ -317,7 +317,18 @@ func runC19(r *Run, p *Prog) {
 			}
 		}
 		sa := final[strings.TrimPrefix(locAddr, "&param:"+recv+".")]
-		r.Ob("A4", shortName(newConn), "client address term equals the service's", dial.Pos(), okAddr && strings.Join(aa, "|") == strings.Join(sa, "|"),
+		// (the un-cut rest as an alternative is judged by its own obligations on each side - it is kept only where
+		// there is no ';' - so the comparison is about the remaining alternatives)
+		without := func(l []string) string {
+			var out []string
+			for _, x := range l {
+				if x != restT {
+					out = append(out, x)
+				}
+			}
+			return strings.Join(out, "|")
+		}
+		r.Ob("A4", shortName(newConn), "client address term equals the service's", dial.Pos(), okAddr && without(aa) == without(sa) && without(aa) != "",
 			fmt.Sprintf("client dials address %v, the service listens on %v: both sides must cut the same ';' tail from the same rest", aa, sa))
 		// client: a malformed string (no ':') is an error, not a panic
 		ok, w := mustCross(T, newConn, nil, func(i ssa.Instruction) bool { return i == ssa.Instruction(dial) }, nil, func(fs []Fact) bool {
